@@ -302,15 +302,25 @@ def run_B(case):
     keys = []
     try:
         for t in range(case["ntables"]):
-            kind = ["logistic", "tanh", "leaky_relu", "hard_swish"][int(rng.integers(0, 4))]
+            kind = ["logistic", "tanh", "leaky_relu", "hard_swish", "mul_max"][int(rng.integers(0, 5))]
             dtype = "int8" if kind in ("hard_swish",) or rng.integers(0, 3) else "uint8"
             g = netgen.G(rng, dtype)
             lo, hi = netgen.DT_RANGE[dtype]
             s_in = g.rscale(0.002, 0.3)
             zp_in = g.rzp()
-            x = g.input([1, 2, 2, 4], s_in, zp_in)
+            free_q = kind in ("logistic", "tanh") and t % 3 != 0
+            if free_q and rng.integers(0, 2):
+                s_in = g.rscale(0.035, 0.12)  # the inputs reach the saturated tails of the function
+            x = g.input([1, 2, 2, 4] if kind != "mul_max" else [1, 16, 16, 1], s_in, zp_in)
             alpha = None
-            if kind in ("logistic", "tanh"):
+            if kind == "mul_max":
+                # MAXIMUM(x, MUL(x, scalar constant)): rewritten to a LeakyReLU table; the oracle is the pair of reference kernels applied to all 256 codes
+                y = g.mul_max(x, int(rng.integers(0, 3)))
+            elif free_q:
+                # any output quantisation (the statement quantifies over output scale and zero point): unsaturated ends, ties near the asymptotes
+                mid = (lo + hi + 1) // 2
+                y = g.unary(kind, x, float(np.float32(1.0 / rng.uniform(40.0, 127.9 if kind == "tanh" else 255.9))), int(mid + rng.integers(-8, 9)) if kind == "tanh" else int(lo + rng.integers(0, 12)), free_q=True)
+            elif kind in ("logistic", "tanh"):
                 y = g.unary(kind, x)
             elif kind == "leaky_relu":
                 alpha = float(np.float32(rng.choice([0.01, 0.1, 0.2, 0.3, 0.5, float(rng.uniform(0.001, 0.99)), float(rng.uniform(1.0, 2.0)), -0.25])))
@@ -354,6 +364,16 @@ def run_B(case):
                 allowed = table_oracle_real(hp_tanh, s_in, zp_in, s_out, zp_out, lo, hi)
             elif kind == "leaky_relu":
                 allowed = lrelu_oracle(alpha, s_in, zp_in, s_out, zp_out, lo, hi)
+            elif kind == "mul_max":
+                from vv import tfref
+
+                src = fbr.RModel(open(mp, "rb").read())
+                it = tfref.Interp(src)
+                it.vals[src.subgraphs[0].inputs[0]] = np.arange(lo, hi + 1, dtype=np.int64).reshape(1, 16, 16, 1)
+                for op_ in src.subgraphs[0].ops:
+                    it.exec_op(op_)
+                want = np.asarray(it.vals[src.subgraphs[0].outputs[0]]).reshape(-1)
+                allowed = [{int(v)} for v in want]
             else:
                 allowed = hswish_oracle(s_in, zp_in, s_out, zp_out, lo, hi)
             bad = [(i + lo, values[i], sorted(allowed[i])) for i in range(256) if values[i] not in allowed[i]]
